@@ -13,6 +13,7 @@ import (
 	"sort"
 	"strconv"
 	"strings"
+	"sync/atomic"
 	"testing"
 	"testing/synctest"
 	"time"
@@ -124,15 +125,33 @@ func runOne(t *testing.T, dir, profile string, seed int64, steps int, replay [][
 		variant = parts[1]
 	}
 	done := make(chan struct{})
-	// out-of-bubble watchdog
+	earlyVerdict.Store(nil)
+	// out-of-bubble watchdog. A run whose engine has already reached a verdict (SetEarlyVerdict)
+	// and then cannot shut the simulated server down (a wedged service never lets the bubble
+	// drain) is not harness trouble: the verdict is printed for the orchestrator and the
+	// process ends.
 	go func() {
-		select {
-		case <-done:
-		case <-time.After(120 * time.Second):
-			buf := make([]byte, 1<<20)
-			n := runtime.Stack(buf, true)
-			fmt.Fprintf(os.Stderr, "WATCHDOG: run %s seed %d stuck\n%s\n", profile, seed, buf[:n])
-			os.Exit(2)
+		start := time.Now()
+		var seenAt time.Time
+		for {
+			select {
+			case <-done:
+				return
+			case <-time.After(time.Second):
+			}
+			if ev := earlyVerdict.Load(); ev != nil && seenAt.IsZero() {
+				seenAt = time.Now()
+			} else if ev != nil && time.Since(seenAt) > 20*time.Second {
+				b, _ := json.Marshal(ev.v)
+				fmt.Fprintf(os.Stderr, "VERIF-WEDGED %s\n", b)
+				os.Exit(3)
+			}
+			if time.Since(start) > 120*time.Second {
+				buf := make([]byte, 1<<20)
+				n := runtime.Stack(buf, true)
+				fmt.Fprintf(os.Stderr, "WATCHDOG: run %s seed %d stuck\n%s\n", profile, seed, buf[:n])
+				os.Exit(2)
+			}
 		}
 	}()
 	defer close(done)
@@ -480,4 +499,20 @@ func panicOrigin(stack string) string {
 		}
 	}
 	return ""
+}
+
+type earlyV struct {
+	v *Violation
+}
+
+var earlyVerdict atomic.Pointer[earlyV]
+
+// SetEarlyVerdict records a violation an engine has established before it starts to shut the
+// simulated server down (the watchdog, outside the bubble, times the rest on the real clock).
+func SetEarlyVerdict(v *Violation) {
+	if v != nil {
+		earlyVerdict.Store(&earlyV{v: v})
+		b, _ := json.Marshal(v)
+		fmt.Fprintf(os.Stderr, "VERIF-VERDICT %s\n", b)
+	}
 }
